@@ -91,7 +91,11 @@ def handle : List String → String
         let sF := ";".intercalate (sorted.map (fun p => s!"f{p.1}=" ++ ",".intercalate (p.2.map idStr)))
         let sT := ",".intercalate (toc.map (urlStr base))
         let isDoc := t0.level == -1000000
-        let sN := if isDoc then ",".intercalate (nav.map (fun p => s!"{optUrl base p.2.1}~{optUrl base p.2.2}")) else "*"
+        let secA := (nodesA [] t).filter (fun p => hasFile p.1 && (fileSections t).any (fun q => q.1.file == p.1.file))
+        let upStr := fun (f : Nat) => match secA.find? (fun p => p.1.file == some f) with
+          | some p => s!"{optUrl base (upOf p.1 p.2)}~{">".intercalate ((breadcrumbs p.1 p.2).map (urlStr base))}"
+          | none => "-~"
+        let sN := if isDoc then ",".intercalate (nav.map (fun p => s!"{optUrl base p.2.1}~{optUrl base p.2.2}~{upStr p.1}")) else "*"
         let sR := ",".intercalate (rs.map (fun p => match p.2 with
           | some (u, n) => s!"{p.1}={urlStr base u}~{n}"
           | none => s!"{p.1}=??"))
@@ -102,7 +106,8 @@ def handle : List String → String
         let model := s!"U:{sU}|F:{sF}|T:{sT}|N:{sN}|R:{sR}|X:{sX}"
         -- property oracle on the model's own output (domain: distinct labels, root creates a file, levels nest)
         let wf := nodupB (labelsOf t0) && isDoc && monotone t0 && nests t0 && inputOK t0 && decide (split < endSections)
-        let links := us.map (·.2) ++ toc ++ nav.filterMap (·.2.1) ++ nav.filterMap (·.2.2) ++ rs.filterMap (fun p => p.2.map (·.1))
+        let links := us.map (·.2) ++ toc ++ nav.filterMap (·.2.1) ++ nav.filterMap (·.2.2) ++ rs.filterMap (fun p => p.2.map (·.1)) ++
+          (nodesA [] t).flatMap (fun p => breadcrumbs p.1 p.2 ++ (upOf p.1 p.2).toList)
         let landAll := links.all (fun u => landsB files (toLink u))
         let uniq := uniqueIdsB files
         let tocFiles := toc.filterMap (·.file)
@@ -120,6 +125,19 @@ def handle : List String → String
         s!"{model}\t{spec}"
       | _ => "bad-op"
     | _, _, _ => "bad-op"
+  | "nav" :: toks =>
+    -- nav <construct>* ; I = \printindex, X = theindex environment, B = thebibliography environment, S = \section
+    let insts : List Inst := (toks.zipIdx).flatMap (fun (w, k) =>
+      if w == "I" then [Inst.cmd "index" k]
+      else if w == "X" then [Inst.envBegin "index" k, Inst.envEnd "index" k]
+      else if w == "B" then [Inst.envBegin "bibliography" k, Inst.envEnd "bibliography" k]
+      else [Inst.cmd "" k])
+    let links := parseNav insts
+    let one := fun (key : String) => match links.find? (·.key == key) with
+      | some e => s!"{key}={e.pos}:{if e.inTree then "tree" else "detached"}"
+      | none => s!"{key}=-"
+    let model := s!"{one "bibliography"},{one "index"}"
+    s!"{model}\t{if links.all (·.inTree) then "ok" else "bad:detached"}"
   | "post" :: toks =>
     -- post <piece>* ; piece = P /P TD /TD BR W T A=<id> E=<id> L=<href>
     let parse : String → Option Piece := fun w =>
